@@ -361,7 +361,7 @@ PROBE = [
     [(100.0, 100.0, 0.5, 80.0, 900, 5), (600.0, 400.0, 1.5, 40.0, 20, 0)],
     [(112.0, 105.0, 0.5, 80.0, 900, 5), (602.0, 401.0, 1.5, 40.0, 20, 0)],
     [(136.0, 105.0, 0.5, 80.0, 900, 5), (603.0, 402.0, 1.5, 40.0, 20, 0)],
-    [(137.0, 106.0, 0.5, 80.0, 900, 5), (604.0, 402.0, 1.5, 40.0, 1, 0), (614.0, 406.0, 1.5, 40.0, 60, 0)],
+    [(137.0, 106.0, 0.5, 80.0, 900, 5), (604.0, 402.0, 1.5, 40.0, 200, 0), (609.0, 404.0, 1.5, 40.0, 60, 0)],
 ]
 
 
@@ -382,6 +382,16 @@ def probe(T):
         out.append([prec(t) for t in tracks])
     T.skip(PROBE_SCENE, 1)
     out.append(sorted((prec(t) for t in T.idle(PROBE_SCENE)), key=lambda r: r["id"]))
+    # let the probe's tracks expire and read them back as wasted tracks: the histories of a MOVING object
+    # (observed and predicted boxes differ there)
+    T.skip(PROBE_SCENE, 40)
+    ws = []
+    for w in T.t.wasted():
+        if w.scene_id != PROBE_SCENE:
+            continue
+        ws.append({"scene": w.scene_id, "ep": w.epoch, "len": w.length, "obs": box6(w.observed_bbox), "pred": box6(w.predicted_bbox),
+                   "obs_boxes": [box6(b) for b in w.observed_boxes], "pred_boxes": [box6(b) for b in w.predicted_boxes]})
+    out.append(sorted(ws, key=lambda r: (r["obs"][0], r["obs"][1], r["len"])))
     return out
 
 
